@@ -283,6 +283,33 @@ let time_checks (h : hist) : string list =
   if not (wall_ok !walls) then fails := "begin-outside-wall-clock-window" :: !fails;
   !fails
 
+
+(* ---- C17: copies of one span (same span id) must agree on their duration.  Within one
+   report (one clock anchor) exactly; across reports each copy is converted with its own
+   anchor and the two floors may move the difference by 1 ns: known finding K6. *)
+let copy_checks (h : hist) : (string * string) list =
+  let acts = List.rev h.acts in
+  let seen : (string, (int * n)) Hashtbl.t = Hashtbl.create 64 in
+  let out = ref [] in
+  let k = ref 0 in
+  List.iter (fun (_, o, _, _, _) ->
+      match o with
+      | OReport (recs, _, _) ->
+        incr k;
+        List.iter (fun r ->
+            let id = hex_of_n r.rc_id ^ "/" ^ string_of_int (int_of_n r.rc_name) in
+            (match Hashtbl.find_opt seen id with
+             | Some (k0, d0) ->
+               if d0 <> r.rc_dur then begin
+                 let diff = if N.leb d0 r.rc_dur then N.sub r.rc_dur d0 else N.sub d0 r.rc_dur in
+                 if k0 = !k then out := ("ORACLEFAIL", "copies-differ-in-one-report") :: !out
+                 else if N.leb diff (n_of_int 1) then out := ("KNOWNHIT", "K6") :: !out
+                 else out := ("ORACLEFAIL", "copies-differ-by-more-than-1ns") :: !out
+               end
+             | None -> Hashtbl.add seen id (!k, r.rc_dur))) recs
+      | _ -> ()) acts;
+  List.sort_uniq compare !out
+
 let run_history (h : hist) (props : string list) stats =
   let pj = proj_of (match props with p :: _ -> p | [] -> "") in
   let s0 = sys_init h.dbg (n_of_int h.ringcap) (n_of_int h.stackcap) (n_of_int h.qcap) in
@@ -302,11 +329,26 @@ let run_history (h : hist) (props : string list) stats =
         end
       end) acts;
   let ao = List.map (fun (a, o, _, _, _) -> (a, o)) acts in
-  List.iter (fun (name, f) ->
-      if props = [] || List.mem name props then begin
-        let fails = (try f s0 ao with e -> ["oracle-exception:" ^ Printexc.to_string e]) in
-        List.iter (fun cl -> Printf.printf "ORACLEFAIL %s %s %s\n" h.hid name cl) fails
-      end) !oracles;
+  let propnum = (match props with
+      | p :: _ when String.length p >= 3 && p.[0] = 'C' -> (try int_of_string (String.sub p 1 (String.length p - 1)) with _ -> 0)
+      | _ -> 0) in
+  if propnum > 0 && propnum <> 18 then begin
+    let vs = (try oracle (n_of_int propnum) s0 ao with e -> []) in
+    let seen = Hashtbl.create 8 in
+    List.iter (fun v ->
+        let key = (int_of_n v.v_clause, int_of_n v.v_known) in
+        if not (Hashtbl.mem seen key) then begin
+          Hashtbl.add seen key ();
+          if int_of_n v.v_known = 0 then
+            Printf.printf "ORACLEFAIL %s C%02d clause=%d step=%d\n" h.hid propnum (int_of_n v.v_clause) (int_of_n v.v_step)
+          else
+            Printf.printf "KNOWNHIT %s C%02d K%d clause=%d step=%d\n" h.hid propnum (int_of_n v.v_known) (int_of_n v.v_clause) (int_of_n v.v_step)
+        end) vs
+  end;
+  if props = ["C17"] then
+    List.iter (fun (kind, what) ->
+        if kind = "KNOWNHIT" then Printf.printf "KNOWNHIT %s C17 %s clause=171 step=0\n" h.hid what
+        else Printf.printf "ORACLEFAIL %s C17 %s\n" h.hid what) (copy_checks h);
   if props = ["C18"] then
     List.iter (fun cl -> Printf.printf "ORACLEFAIL %s C18 %s\n" h.hid cl) (try time_checks h with e -> ["time-check-exception:" ^ Printexc.to_string e]);
   Hashtbl.replace stats "actions" ((try Hashtbl.find stats "actions" with Not_found -> 0) + List.length acts);
